@@ -13,7 +13,7 @@ def plan(tier, seed):
                 mutants=[{'name': 'dollar_kept', 'cfg': {'shape': [0, '$$', 1, 2]}},
                          {'name': 'text_identified_as_markup', 'cfg': {'shape': ['<?', 0, 1, '?>']}}])
     rj = []
-    for t in ('t1', 't2', 't3', 't4', 't5'):
+    for t in ('t1', 't2', 't3', 't4', 't5', 't6'):
         for kind in ('str', 'object'):
             rj.append({'template': t, 'kind': kind, 'k': 2 if quick else 3})
     rj.append({'template': 't1', 'kind': 'none', 'k': 1})
